@@ -150,7 +150,20 @@ def build_model(case):
             else:
                 press = FilePressureProfile(path, reverse=True)
     tv = temperature_values(n, case['T'])
-    temp = Isothermal(1500.0) if tv is None else TemperatureArray(tp_array=list(tv))
+    tvia = case.get('Tvia', 'plain')
+    if tv is None:
+        temp = Isothermal(1500.0)
+    elif tvia == 'plain' or n < 2:
+        temp = TemperatureArray(tp_array=list(tv))
+    else:
+        # the temperatures come with their own pressure points (here: exactly the layer pressures, so that every layer
+        # must get its own tabulated value), listed from the surface up or - 'points-reverse' - from the top down
+        pp = np.asarray(given if given is not None else
+                        rhydro.layer_pressure(rhydro.simple_levels(n, pmin, pmax)), dtype=float)
+        if tvia == 'points':
+            temp = TemperatureArray(tp_array=list(tv), p_points=list(pp))
+        else:
+            temp = TemperatureArray(tp_array=list(tv)[::-1], p_points=list(pp)[::-1], reverse=True)
     tv = None if tv is None else np.asarray(tv, dtype=float)
     mu = case['mu']
     if mu == 'const':
@@ -214,7 +227,7 @@ def case_fn(case):
     if not ok:
         return r
     if tv is not None:
-        r.eq(T, tv, 'temperature-aligned', 'aligned/temperatureProfile', rtol=1e-12)
+        r.eq(T, tv, 'temperature-aligned', 'aligned/temperatureProfile/%s' % case.get('Tvia', 'plain'), rtol=1e-9)
     names = list(tm.chemistry.gases)
     r.eq(mu, rchem.mu_profile(names, np.asarray(tm.chemistry.mixProfile, dtype=float)), 'mu-aligned',
          'aligned/muProfile', rtol=1e-9)
@@ -370,7 +383,7 @@ def hist_fn(case):
 
 def explore(ctx):
     dims = {'N': NS, 'psource': PSOURCES, 'planet': list(PLANETS), 'mu': MULETTERS, 'prange': list(PRANGES),
-            'T': TLETTERS, 'model': MODELS}
+            'T': TLETTERS, 'model': MODELS, 'Tvia': ['plain', 'points', 'points-reverse']}
     if ctx.tier == 'thorough':
         dims['N'] = NS + [4, 7, 13, 30, 57]
         cases = core.product_cases(dims, full=True)
